@@ -624,6 +624,54 @@ func statementTokenRule(r *Run, rule string) {
 			return true
 		})
 		if !capturesCur {
+			// a helper that hands back the current token as it is counts as the current token
+			viaHelper := false
+			ast.Inspect(lit, func(n ast.Node) bool {
+				call, ok := n.(*ast.CallExpr)
+				if !ok || len(call.Args) != 0 {
+					return true
+				}
+				g := w.FuncOf(calleeOf(info, call))
+				if g == nil || g.Rel != "parser" || g.Decl.Body == nil {
+					return true
+				}
+				rets := returnsIn(g.Decl.Body)
+				all := len(rets) > 0
+				for _, ret := range rets {
+					if len(ret.Results) != 1 {
+						all = false
+						continue
+					}
+					if _, fld := fieldOf(g.Pkg.TypesInfo, ret.Results[0]); fld != pm.cur {
+						all = false
+					}
+				}
+				if all {
+					viaHelper = true
+				}
+				return true
+			})
+			if viaHelper {
+				capturesCur = true
+			}
+			// ... and so does a local that was given the current token once (tok := p.curToken)
+			ast.Inspect(lit, func(n ast.Node) bool {
+				if id, ok := n.(*ast.Ident); ok {
+					if def := singleDefinition(info, f, id); def != ast.Expr(id) {
+						if _, fld := fieldOf(info, def); fld == pm.cur {
+							capturesCur = true
+						}
+					}
+				}
+				return true
+			})
+		}
+		if !capturesCur {
+			// a statement node must carry the token it starts with: the top-level evaluator reports its line
+			if types.Implements(rt, stmtIface(w)) && litSetsToken(info, lit) {
+				r.Bad(rule, f.Name(), typeStr(deref(rt))+" stamped with something else than the current token", w.Pos(lit.Pos()),
+					"the statement's token is not the parser's current token as it stands when the statement begins (a token made up on the way, with a line taken from elsewhere, is reported instead of the line of the tag that holds the statement)")
+			}
 			continue
 		}
 		var firstMove token.Pos
@@ -681,4 +729,28 @@ func singleDefinition(info *types.Info, f *FuncInfo, e ast.Expr) ast.Expr {
 		return unparen(def)
 	}
 	return e
+}
+
+// stmtIface: the ast.Statement interface.
+func stmtIface(w *World) *types.Interface {
+	if n := w.NamedType("ast", "Statement"); n != nil {
+		if it, ok := n.Underlying().(*types.Interface); ok {
+			return it
+		}
+	}
+	return types.NewInterfaceType(nil, nil)
+}
+
+// litSetsToken: the composite literal gives its node a token (a field of type token.Token somewhere in it).
+func litSetsToken(info *types.Info, lit *ast.CompositeLit) bool {
+	found := false
+	ast.Inspect(lit, func(n ast.Node) bool {
+		if kv, ok := n.(*ast.KeyValueExpr); ok {
+			if tv, ok := info.Types[kv.Value]; ok && namedIs(tv.Type, tokPath, "Token") {
+				found = true
+			}
+		}
+		return true
+	})
+	return found
 }
